@@ -479,3 +479,17 @@ var sweepOtherTemplates = []string{"LicenseRef-%s", "MIT AND LicenseRef-q%s", "D
 func isIDByte(b byte) bool {
 	return b >= 'a' && b <= 'z' || b >= 'A' && b <= 'Z' || b >= '0' && b <= '9' || b == '-' || b == '.'
 }
+
+// twinTrees: every expression that uses each of the given leaves exactly once (all orders, shapes, operators).  Two of
+// them joined by AND / OR are sub-expressions over the SAME multiset of terms with, in general, different Boolean
+// functions - what a memo keyed on the terms of a group, or an "identical operands" shortcut, confuses.
+func twinTrees(leaves []string) []*Tree {
+	var out []*Tree
+	for _, p := range perms(leaves) {
+		for _, sh := range allTrees(len(leaves)) {
+			i := 0
+			out = append(out, label(sh, p, &i))
+		}
+	}
+	return out
+}
